@@ -3,8 +3,12 @@
 package netsim
 
 import (
+	"sync"
+
 	"encoding/binary"
 	"fmt"
+	"github.com/scionproto/scion/pkg/slayers/path/epic"
+	"github.com/scionproto/scion/pkg/slayers/path/scion"
 	"testing"
 	"time"
 
@@ -23,6 +27,116 @@ func setIAs(raw []byte, dst, src addr.IA) []byte {
 }
 
 // fixUDPChecksum is not needed: routers do not verify upper-layer checksums.
+
+// background sends one valid packet of a seed-chosen flow through the network, unjudged: it gives
+// the long-lived packet processors of the routers on its path a history (cross-overs, peering
+// hops, EPIC), so that state a processor wrongly carries from one packet to the next shows.
+func (w *World) background(r *core.Run, flows []*Flow) {
+	if len(flows) == 0 || !r.Chance("background", 1, 2) {
+		return
+	}
+	f := flows[r.Choice("background.flow", len(flows))]
+	raw := f.Raw
+	if f.Path.Metadata.EpicAuths.SupportsEpic() && r.Chance("background.epic", 1, 3) {
+		if e, err := buildEPIC(f, []byte("background")); err == nil {
+			raw = e
+		}
+	}
+	prev := w.OnHop
+	w.OnHop = nil
+	w.remember(w.Send(f.First, Ingress{Kind: InHost, Src: f.SH.UDPAddr(int(f.SPort))}, raw, nil))
+	w.OnHop = prev
+	r.Probe("background-packet")
+}
+
+// history: valid traversals seen per router, by kind, so that an adversarial packet can be preceded
+// on the very same processor by a packet that was at a peering hop, did a cross-over, or was plain.
+type histRec struct {
+	in  Ingress
+	raw []byte
+}
+
+var histories sync.Map // *World -> map[*Router]map[string][]histRec
+
+func (w *World) remember(j *Journey) {
+	v, _ := histories.LoadOrStore(w, map[*Router]map[string][]histRec{})
+	h := v.(map[*Router]map[string][]histRec)
+	for _, rec := range j.Hops {
+		if rec.Reply || rec.Panic != "" || rec.Res.Disposition != router.VerifForward || rec.Res.SlowPath {
+			continue
+		}
+		p, err := refmodel.Parse(rec.InRaw)
+		if err != nil || !p.HasSCION {
+			continue
+		}
+		kind := "plain"
+		switch {
+		case isPeerHop(p, p.CurrHF):
+			kind = "peering"
+		case p.IsLastHopOfSeg(p.CurrHF) && p.CurrHF != p.NumHops-1:
+			kind = "xover"
+		}
+		if h[rec.Router] == nil {
+			h[rec.Router] = map[string][]histRec{}
+		}
+		if l := h[rec.Router][kind]; len(l) < 6 {
+			h[rec.Router][kind] = append(l, histRec{rec.In, rec.InRaw})
+		}
+	}
+}
+
+// precede processes, unjudged, one packet on the router just before the packet under test: a
+// remembered valid traversal (at a peering hop, doing a cross-over, plain) or a forged packet that
+// merely has the shape of one positioned on a peering hop (whatever the router then decides about
+// it, it has looked at it).
+func (w *World) precede(r *core.Run, rt *Router) {
+	if !r.Chance("precede", 2, 3) {
+		return
+	}
+	var h map[string][]histRec
+	if v, ok := histories.Load(w); ok {
+		h = v.(map[*Router]map[string][]histRec)[rt]
+	}
+	kinds := []string{"forged-peering"}
+	for _, k := range []string{"peering", "xover", "plain"} {
+		if len(h[k]) > 0 {
+			kinds = append(kinds, k)
+		}
+	}
+	kind := kinds[r.Choice("precede.kind", len(kinds))]
+	prev := w.OnHop
+	w.OnHop = nil
+	defer func() { w.OnHop = prev }()
+	r.Probe("preceded-by-" + kind + "-packet")
+	if kind != "forged-peering" {
+		x := h[kind][r.Choice("precede.which", len(h[kind]))]
+		w.process(rt, x.in, x.raw)
+		return
+	}
+	a := rt.AS
+	ts := uint32(time.Now().Unix() - 60)
+	in := Ingress{Kind: InHost, Src: a.Hosts[0].UDPAddr(40000)}
+	first := uint16(0)
+	if len(rt.Intfs) > 0 && r.Chance("precede.ext", 1, 2) {
+		first = rt.Intfs[0].ID
+		in = Ingress{Kind: InExt, IfID: first}
+	}
+	segs := []FSeg{
+		{ConsDir: false, Peer: true, TS: ts, SegID: 7, Hops: []FHop{{In: 9, Eg: 0}, {AS: a, In: first, Eg: 3, Exp: 63, Beta: 7}}},
+		{ConsDir: true, Peer: true, TS: ts, SegID: 9, Hops: []FHop{{AS: a, In: first, Eg: 5, Exp: 63, Beta: 9}, {In: 7, Eg: 0}}},
+	}
+	currINF, currHF := 1, 2
+	if in.Kind == InExt {
+		currINF, currHF = 0, 1
+	}
+	other := w.ASes[(a.Idx+1)%len(w.ASes)]
+	pkt, err := BuildPacket(PktSpec{SrcIA: a.IA, DstIA: other.IA, Src: hostAddr(a.Hosts[0]), Dst: hostAddr(other.Hosts[0]),
+		RawPath: forgeRaw(r, segs, currINF, currHF), SrcPort: 31000, DstPort: 31001, Payload: []byte("peering-shaped")})
+	if err != nil {
+		panic(core.InfraError{Msg: "forged peering-shaped packet: " + err.Error()})
+	}
+	w.process(rt, in, pkt)
+}
 
 func runSpoof(r *core.Run) {
 	core.Bubble(r, func(t *testing.T) { spoof(r) })
@@ -44,6 +158,7 @@ func spoof(r *core.Run) {
 		if !dry.Delivered || dry.SCMP {
 			continue
 		}
+		w.remember(dry)
 		// ingress router of each AS in the dry run
 		ingressRouter := map[*AS]*Router{}
 		for _, rec := range dry.Hops {
@@ -67,7 +182,11 @@ func spoof(r *core.Run) {
 				// choose the link it arrives on
 				in := rec.In
 				linkDesc := "as-is"
-				switch r.Choice("spoof.link", 4) {
+				lk := r.Choice("spoof.link", 4)
+				if rec.In.Kind == InSibling && r.Chance("spoof.hostlink.bias", 1, 2) {
+					lk = 1 // transit traffic handed over by a sibling, re-sent by a host: the disguise of the statement
+				}
+				switch lk {
 				case 1: // over the internal link from a host
 					if rec.In.Kind != InHost {
 						in = Ingress{Kind: InHost, Src: a.Hosts[0].UDPAddr(40000)}
@@ -111,7 +230,9 @@ func spoof(r *core.Run) {
 						}
 					}
 				}
+				w.background(r, flows)
 				r.Logf("spoof at %s %s traversal %d: src=%s dst=%s link=%s => reject=%v (%s)", a.IA, rec.Router.Name, ti, src, dst, linkDesc, reject, why)
+				w.precede(r, rec.Router)
 				prevHook := w.OnHop
 				w.OnHop = nil
 				got := w.process(rec.Router, in, raw)
@@ -138,6 +259,7 @@ func spoof(r *core.Run) {
 		}
 	}
 	r.Nontrivial = n > 0
+	histories.Delete(w)
 	r.Sample = map[string]any{"ases": len(w.ASes), "flows": len(flows), "spoofed_packets": n}
 }
 
@@ -151,7 +273,8 @@ var ltName = map[topology.LinkType]string{topology.Core: "core", topology.Parent
 // segment change, in both directions, a packet with validly MACed hop fields.
 func linkType(r *core.Run) {
 	k := defaultKnobs(r)
-	w, _ := setup(r, k, time.Minute)
+	w, lsegs := setup(r, k, time.Minute)
+	bg := w.sampleFlows(r, lsegs, 4, 4)
 	n := 0
 	ts := uint32(time.Now().Unix() - 60)
 	for _, a := range w.ASes {
@@ -239,13 +362,34 @@ func linkType(r *core.Run) {
 						pair = "host-midpath-" + ltName[te]
 					}
 				}
+				// the same rules hold for EPIC packets (same hop fields behind an EPIC header); two more foreign
+				// hops at the end keep the hop under test away from the penultimate and last positions,
+				// where the hop validation fields are checked
+				asEPIC := shape <= 2 && r.Chance("lt.epic", 1, 3)
+				if asEPIC {
+					last := &segs[len(segs)-1]
+					last.Hops[len(last.Hops)-1].Eg = 11
+					last.Hops = append(last.Hops, FHop{In: 12, Eg: 13}, FHop{In: 14, Eg: 0})
+					pair += "/epic"
+				}
 				raw := forgeRaw(r, segs, currINF, currHF)
 				g := &Flow{Src: w.AS(srcIA), Dst: w.AS(dstIA), SH: w.AS(srcIA).Hosts[0], DH: w.AS(dstIA).Hosts[0]}
-				pkt, err := BuildPacket(PktSpec{SrcIA: srcIA, DstIA: dstIA, Src: hostAddr(g.SH), Dst: hostAddr(g.DH), RawPath: raw,
-					SrcPort: 31000, DstPort: 31001, Payload: []byte("linktype")})
+				spec := PktSpec{SrcIA: srcIA, DstIA: dstIA, Src: hostAddr(g.SH), Dst: hostAddr(g.DH), RawPath: raw,
+					SrcPort: 31000, DstPort: 31001, Payload: []byte("linktype")}
+				if asEPIC {
+					rp := &scion.Raw{}
+					if err := rp.DecodeFromBytes(raw); err != nil {
+						panic(core.InfraError{Msg: "forged path: " + err.Error()})
+					}
+					spec.Path, spec.PathType = &epic.Path{PktID: epic.PktID{Timestamp: 1, Counter: uint32(n)}, PHVF: []byte{1, 2, 3, 4},
+						LHVF: []byte{5, 6, 7, 8}, ScionPath: rp}, epic.PathType
+				}
+				pkt, err := BuildPacket(spec)
 				if err != nil {
 					panic(core.InfraError{Msg: "forged packet: " + err.Error()})
 				}
+				w.background(r, bg)
+				w.precede(r, rt)
 				prevHook := w.OnHop
 				w.OnHop = nil
 				got := w.process(rt, in, pkt)
@@ -279,5 +423,6 @@ func linkType(r *core.Run) {
 		}
 	}
 	r.Nontrivial = n > 0
+	histories.Delete(w)
 	r.Sample = map[string]any{"ases": len(w.ASes), "packets": n}
 }
